@@ -478,7 +478,7 @@ func (r *rrun) compare(st *RState, final bool) *fail {
 		if got := wk.Running(); got != st.Wrun[key] && !exitPending(key) {
 			return &fail{"conformance", "worker-running", fmt.Sprintf("worker %s running=%v, the model says %v (loop %s)", key, got, st.Wrun[key], st.Loop[key])}
 		}
-		if got := wk.NResults(); got != len(st.Results[key]) {
+		if got := wk.NResults(); got != len(st.Results[key]) && !exitPending(key) {
 			return &fail{"conformance", "worker-queue", fmt.Sprintf("worker %s has %d promises in its open batch, the model says %d", key, got, len(st.Results[key]))}
 		}
 		if got := wk.State(); got != st.Wst[key] {
